@@ -68,7 +68,7 @@ def run(ck):
     r1 = regen.regen_kernels(); r2 = translate_attrs.regen()
     ck.obligation("translate:T1 kernels -> gen/KernelsGen.v", r1["ok"], r1["error"] or "")
     ck.obligation("translate:T2 attributes -> gen/AttrsGen.v", r2["ok"], r2["error"] or "")
-    ck.build_theorems("Properties/C07.v", deps=["gen/KernelsGen.vo", "gen/AttrsGen.vo", "GenRef.vo", "KernelThms2.vo", "AttrThms3.vo", "KernelLin.vo"])
+    ck.build_theorems("Properties/C07.v", deps=["gen/KernelsGen.vo", "gen/AttrsGen.vo", "GenRef.vo", "KernelThms2.vo", "AttrThms3.vo", "KernelLin.vo", "Sinusoid.vo"])
     sweep(ck)
     ck.cov["rule"] = "random records; y = g*x (with DC/linear trend so the two channels' trends differ) and y = x delayed by d in {1,2,3}; 4 schedulers x orders x windows x 3 backends; Hxy = g, coh = 1; phase = -2 pi f d/fs within 0.35 rad on bins with L >= 32 d"
     ck.samples = [dict(test="gain -2.5 with trend, order 1, numba"), dict(test="delay 2 samples, numpy backend")]
